@@ -60,6 +60,9 @@ func (p *pattern) Match(path []string) bool {
 		// skip empty
 		if pattern[0] == "" {
 			pattern = pattern[1:]
+			if len(pattern) == 0 {
+				return false
+			}
 		}
 
 		// eat doublestar
